@@ -60,7 +60,6 @@ def model(ctx, kind, sc, alpha=None, optics=None, th='auto',
             cc = CountingCalc()
             m = ExactModel(scat, calc_func=cc, theory=theo,
                            constraints=cons, **kw)
-            COUNTERS[id(m)] = cc
         else:
             m = ExactModel(scat, theory=theo, constraints=cons, **kw)
     return m
@@ -247,6 +246,8 @@ def _parvec(m, spec):
     if isinstance(spec, dict) and 'as_dict' in spec:
         names = list(m._parameter_names)
         return dict(zip(names, spec['as_dict']))
+    if isinstance(spec, dict):
+        return dict(spec)
     return list(spec)
 
 
@@ -305,3 +306,104 @@ def noisy_data(ctx, mo, pars, det, noise, seed, noise_sd_attr=None):
     if noise_sd_attr is not None:
         h = update_metadata(h, noise_sd=val(ctx, noise_sd_attr))
     return h
+
+
+# ------------------------------------------------------------ distributed (C12)
+
+def unrelated_work(kind):
+    """Run in a worker before it serves posterior evaluations."""
+    import holopy as hp
+    from holopy.scattering import (Sphere, Spheres, Spheroid, calc_holo,
+                                   Multisphere, Tmatrix)
+    det = hp.detector_grid(6, 0.1)
+    kw = dict(medium_index=1.33, illum_wavelen=0.66,
+              illum_polarization=(1, 0))
+    if kind == 'multisphere':
+        s = Spheres([Sphere(n=1.59, r=0.4, center=(0.2, 0.2, 6)),
+                     Sphere(n=1.45, r=0.3, center=(1.2, 0.4, 6.5))])
+        return float(calc_holo(det, s, theory=Multisphere(), **kw).sum())
+    if kind == 'tmatrix':
+        s = Spheroid(n=1.5, r=(0.3, 0.5), rotation=(0, 0.4, 0.8),
+                     center=(0.3, 0.3, 7))
+        return float(calc_holo(det, s, theory=Tmatrix(), **kw).sum())
+    if kind == 'rng':
+        return float(np.random.uniform(size=17).sum())
+    if kind == 'arm_solver':
+        from sim import seams
+        if seams.SOLVER is not None:
+            seams.SOLVER.fail_at = seams.SOLVER.calls
+            seams.SOLVER.mode = 'noconv'
+        return 0.0
+    s = Sphere(n=1.59, r=0.5, center=(0.3, 0.3, 8))
+    return float(calc_holo(det, s, **kw).sum())
+
+
+@op('pool_create')
+def pool_create(ctx, nworkers, seed, dup_rate=0.0, kill_rate=0.0,
+                reorder=True):
+    from sim.pool import SimPool
+    return SimPool(nworkers, seed, dup_rate, kill_rate, reorder)
+
+
+@op('pool_prework', mutates=('pool',))
+def pool_prework(ctx, pool, wid, kind):
+    p = val(ctx, pool)
+    p.submit_to(wid, unrelated_work, kind)
+    return None
+
+
+@op('pool_map', mutates=('pool',))
+def pool_map(ctx, pool, mo, data, vectors, pixels=None):
+    """What sample_emcee does: choose_pool(pool).map(LnpostWrapper.evaluate)"""
+    from holopy.core.utils import choose_pool, LnpostWrapper
+    sp = val(ctx, pool)
+    m = val(ctx, mo)
+    d = val(ctx, data)
+    names = list(m._parameter_names)
+    vecs = [[v[n] for n in names] for v in vectors]
+    obj = LnpostWrapper(m, d, pixels)
+    p = choose_pool(sp)
+    n0 = len(sp.replies)
+    l0 = len(sp.log)
+    d0 = sp.deaths
+    try:
+        res = p.map(obj.evaluate, vecs)
+        err = None
+    except Exception as e:
+        res, err = None, type(e).__name__ + ': ' + str(e)[:200]
+    local = [obj.evaluate(v) for v in vecs]
+    return {'res': res, 'err': err, 'local': local,
+            'replies': [list(r) for r in sp.replies[n0:]],
+            'log': [list(x) for x in sp.log[l0:]],
+            'deaths': sp.deaths - d0}
+
+
+@op('pool_close', mutates=('pool',))
+def pool_close(ctx, pool):
+    val(ctx, pool).close()
+    return None
+
+
+@op('named_eval')
+def named_eval(ctx, mo, what, values, data=None, pixels=None, keyed='dict'):
+    """lnprior / lnlike / lnposterior / forward with name-keyed values."""
+    m = val(ctx, mo)
+    names = list(m._parameter_names)
+    pars = dict(values) if keyed == 'dict' else [values[n] for n in names]
+    cc = getattr(m, 'calc_func', None)
+    c0 = cc.calls if isinstance(cc, CountingCalc) else None
+    d = val(ctx, data) if data is not None else None
+    if what == 'lnprior':
+        out = m.lnprior(pars)
+    elif what == 'lnlike':
+        out = m.lnlike(pars, d)
+    elif what == 'lnposterior':
+        out = m.lnposterior(pars, d, pixels)
+    elif what == 'forward':
+        out = m.forward(pars, d)
+    else:
+        raise ValueError(what)
+    if c0 is not None:
+        ctx.extra['calc_calls'] = cc.calls - c0
+    ctx.extra['names'] = names
+    return out
